@@ -215,13 +215,15 @@ const (
 var styleNames = []string{"lit", "named", "mixed", "method", "op", "class"}
 
 type oset struct {
-	idx        int
-	style      int
-	underscore bool
-	cands      []cand
-	calls      [][]ty
-	dist       bool
-	op         string
+	idx     int
+	style   int
+	nameFmt string // overloaded name (set index, permutation), chosen independently of recvFmt
+	recvFmt string // receiver / class type name
+	layout  int    // where the overload declarations are written relative to the type and the candidates
+	cands   []cand
+	calls   [][]ty
+	dist    bool
+	op      string
 }
 
 func allTypes() []ty {
@@ -246,8 +248,38 @@ func randTy(r *vh.Rand) ty { return universe[r.Intn(len(universe))] }
 
 var binOps = []string{"+", "-", "*", "/", "%", "&", "|", "^", "<<", ">>", "&^", "==", "!=", "<", "<=", ">", ">="}
 
-func genSet(r *vh.Rand, idx int, tier string) oset {
-	s := oset{idx: idx, style: r.Intn(6), underscore: r.Chance(30)}
+// force fixes some dimensions of a generated set (coverage sets); nil = all random.
+type force struct {
+	style            int
+	nameFmt, recvFmt string
+	layout           int
+	n                int
+}
+
+func genSet(r *vh.Rand, idx int, tier string) oset { return genSetF(r, idx, tier, nil) }
+
+func genSetF(r *vh.Rand, idx int, tier string, fc *force) oset {
+	s := oset{idx: idx, style: r.Intn(6)}
+	if fc != nil {
+		s.style = fc.style
+	}
+	// naming, declaration order and file layout are independent random dimensions
+	s.nameFmt = nameFmts[r.Intn(len(nameFmts))]
+	switch s.style {
+	case styleOp:
+		s.recvFmt = opRecvFmts[r.Intn(len(opRecvFmts))]
+	case styleClass:
+		s.recvFmt = classRecvFmts[r.Intn(len(classRecvFmts))]
+	default:
+		s.recvFmt = recvFmts[r.Intn(len(recvFmts))]
+	}
+	s.layout = r.Intn(6)
+	if fc != nil {
+		s.nameFmt, s.layout = fc.nameFmt, fc.layout
+		if fc.recvFmt != "" {
+			s.recvFmt = fc.recvFmt
+		}
+	}
 	wantDist := r.Chance(78)
 	n := 2 + r.Intn(3)
 	big := 6
@@ -256,6 +288,9 @@ func genSet(r *vh.Rand, idx int, tier string) oset {
 	}
 	if r.Chance(big) {
 		n = 5
+	}
+	if fc != nil {
+		n, wantDist = fc.n, true
 	}
 	if s.style == styleOp {
 		s.op = binOps[r.Intn(len(binOps))]
@@ -381,6 +416,39 @@ func permutations(n int) [][]int {
 	return res
 }
 
+// coverageSets: small distinguishable sets that enumerate the naming and layout dimensions
+// systematically, so that every run has, for methods, every receiver-name shape with every class of
+// overloaded name (no '_', inner '_', leading '_') and every layout; for operators and plain
+// functions every layout; for class files both declaration orders and both file-name forms.
+func coverageSets(r *vh.Rand, start int, tier string) []*oset {
+	var res []*oset
+	idx := start
+	add := func(fc force) {
+		s := genSetF(r.Fork(idx), idx, tier, &fc)
+		res = append(res, &s)
+		idx++
+	}
+	nameClasses := []string{"ov%dp%d", "ov_%dp%d", "_ov%dp%d", "Ov%dP%d"}
+	k := 0
+	for _, rf := range recvFmts[:6] {
+		for _, nf := range nameClasses[:3] {
+			add(force{style: styleMethod, nameFmt: nf, recvFmt: rf, layout: k % 6, n: 2 + k%2})
+			k++
+		}
+	}
+	for i, rf := range opRecvFmts[:4] {
+		add(force{style: styleOp, nameFmt: nameClasses[i%4], recvFmt: rf, layout: i % 6, n: 2})
+		add(force{style: styleOp, nameFmt: nameClasses[(i+1)%4], recvFmt: rf, layout: (i + 3) % 6, n: 3})
+	}
+	for l := 0; l < 6; l++ {
+		add(force{style: []int{styleNamed, styleMixed, styleLit}[l%3], nameFmt: nameClasses[l%4], layout: l, n: 2})
+	}
+	for l := 0; l < 4; l++ {
+		add(force{style: styleClass, nameFmt: nameClasses[l%4], recvFmt: classRecvFmts[l], layout: []int{0, 1, 3, 4}[l], n: 2})
+	}
+	return res
+}
+
 // ---------------------------------------------------------------------------------------------
 // program text
 
@@ -404,26 +472,39 @@ func prelude() string {
 	return b.String()
 }
 
+// name shapes: with and without '_', leading '_', mixed case, digits (no "__", no trailing '_':
+// gogen splits Gopo_ constants at "__")
+var nameFmts = []string{"ov%dp%d", "ov_%dp%d", "_ov%dp%d", "Ov%dP%d", "o%d_v_%d", "x%dY%d", "ov%dp%d"}
+var recvFmts = []string{"R%d", "R_%d", "_r%d", "rcv%dT", "my_R_%d", "r%d", "R%d"}
+var opRecvFmts = []string{"Q%dp%d", "Q_%dp%d", "_q%dp%d", "q%dP_%d", "Q%dp%d"}
+
+// a normal class file <Class>[_<anything>].gox: the class name is the part before the last '_'
+var classRecvFmts = []string{"K%d", "kls%d", "Kx%dY", "k%d"}
+
 func (s *oset) declName(p int) string {
-	if s.underscore {
-		return fmt.Sprintf("ov_%dp%d", s.idx, p)
+	if s.nameFmt == "" {
+		return fmt.Sprintf("ov%dp%d", s.idx, p)
 	}
-	return fmt.Sprintf("ov%dp%d", s.idx, p)
+	return fmt.Sprintf(s.nameFmt, s.idx, p)
 }
 func (s *oset) recvName(p int) string {
-	if s.style == styleClass {
-		return fmt.Sprintf("K%d", s.idx)
-	}
-	if s.style == styleOp {
-		if s.underscore {
-			return fmt.Sprintf("Q_%dp%d", s.idx, p)
+	f := s.recvFmt
+	switch s.style {
+	case styleClass:
+		if f == "" {
+			f = "K%d"
 		}
-		return fmt.Sprintf("Q%dp%d", s.idx, p)
+		return fmt.Sprintf(f, s.idx)
+	case styleOp:
+		if f == "" {
+			f = "Q%dp%d"
+		}
+		return fmt.Sprintf(f, s.idx, p)
 	}
-	if s.underscore {
-		return fmt.Sprintf("R_%d", s.idx)
+	if f == "" {
+		f = "R%d"
 	}
-	return fmt.Sprintf("R%d", s.idx)
+	return fmt.Sprintf(f, s.idx)
 }
 func (s *oset) fnName(c cand, p int) string {
 	if s.style == styleOp {
@@ -468,16 +549,6 @@ func (s *oset) declText(k int, order []int) string {
 		b.WriteString(")\n")
 	case styleOp:
 		q := s.recvName(k)
-		fmt.Fprintf(&b, "type %s struct{}\nvar v%s %s\n", q, q, q)
-		for _, c := range s.cands {
-			if c.kind == 'M' {
-				pp := c.params[1]
-				pp.q = q
-				fmt.Fprintf(&b, "func (a %s) %s(b %s) %s { hit = %d; return a }\n", q, s.fnName(c, k), pp.src(), q, c.id)
-			} else {
-				fmt.Fprintf(&b, "func %s(a %s, b %s) %s { hit = %d; return b }\n", s.fnName(c, k), c.params[0].src(), q, q, c.id)
-			}
-		}
 		fmt.Fprintf(&b, "func (%s).%s = (\n", q, s.op)
 		for _, ci := range order {
 			c := s.cands[ci]
@@ -492,9 +563,25 @@ func (s *oset) declText(k int, order []int) string {
 	return b.String()
 }
 
-func (s *oset) sharedText() string {
+// sharedText: the receiver types, variables and the named candidates (everything an overload
+// declaration refers to).
+func (s *oset) sharedText(nperms int) string {
 	var b strings.Builder
 	switch s.style {
+	case styleOp:
+		for k := 0; k < nperms; k++ {
+			q := s.recvName(k)
+			fmt.Fprintf(&b, "type %s struct{}\nvar v%s %s\n", q, q, q)
+			for _, c := range s.cands {
+				if c.kind == 'M' {
+					pp := c.params[1]
+					pp.q = q
+					fmt.Fprintf(&b, "func (a %s) %s(b %s) %s { hit = %d; return a }\n", q, s.fnName(c, k), pp.src(), q, c.id)
+				} else {
+					fmt.Fprintf(&b, "func %s(a %s, b %s) %s { hit = %d; return b }\n", s.fnName(c, k), c.params[0].src(), q, q, c.id)
+				}
+			}
+		}
 	case styleNamed, styleMixed, styleClass:
 		for _, c := range s.cands {
 			if c.kind == 'I' {
@@ -531,9 +618,10 @@ func (s *oset) callText(k, ci int, args []ty) string {
 	return fmt.Sprintf("\thit = -1\n\t%s\n\techo \"R %d %d %d\", hit\n", call, s.idx, k, ci)
 }
 
-func (s *oset) text(perms [][]int) (decls, calls string) {
+// text: part A (types, candidates), part B (the overload declarations, one per listing order),
+// and the functions that call them.
+func (s *oset) text(perms [][]int) (partA, partB, calls string) {
 	var d, c strings.Builder
-	d.WriteString(s.sharedText())
 	for k, order := range perms {
 		d.WriteString(s.declText(k, order))
 		fmt.Fprintf(&c, "func calls%dp%d() {\n", s.idx, k)
@@ -542,22 +630,48 @@ func (s *oset) text(perms [][]int) (decls, calls string) {
 		}
 		c.WriteString("}\n")
 	}
-	return d.String(), c.String()
+	return s.sharedText(len(perms)), d.String(), c.String()
 }
 
-// program: the package as file name -> source (main.xgo and one K<set>.gox per class-style set)
+// program: the package as file name -> source.  Per set the overload declarations (part B) are
+// written before or after the types/candidates (part A), in the same file or in a file that
+// sorts before / after the file holding part A (layout); class-style sets live in <Class>.gox.
 func program(sets []*oset, perms map[int][][]int) map[string]string {
 	files := map[string]string{}
 	var b strings.Builder
 	b.WriteString(prelude())
 	var main strings.Builder
+	add := func(name, text string) { files[name] += text }
 	for _, s := range sets {
-		d, c := s.text(perms[s.idx])
-		if s.style == styleClass {
-			files[s.recvName(0)+".gox"] = d
+		pa, pb, c := s.text(perms[s.idx])
+		early, late := fmt.Sprintf("a%d.xgo", s.idx), fmt.Sprintf("z%d.xgo", s.idx)
+		switch {
+		case s.style == styleClass:
+			if s.layout%2 == 1 {
+				pa, pb = pb, pa
+			}
+			fname := s.recvName(0) + ".gox"
+			if s.layout >= 3 {
+				fname = s.recvName(0) + "_v.gox"
+			}
+			files[fname] = pa + pb
 			fmt.Fprintf(&b, "var v%s = new(%s)\n", s.recvName(0), s.recvName(0))
-		} else {
-			b.WriteString(d)
+		case s.layout == 1:
+			b.WriteString(pb + pa)
+		case s.layout == 2:
+			b.WriteString(pa)
+			add(early, pb)
+		case s.layout == 3:
+			b.WriteString(pa)
+			add(late, pb)
+		case s.layout == 4:
+			add(late, pa)
+			b.WriteString(pb)
+		case s.layout == 5:
+			add(late, pa)
+			add(early, pb)
+		default:
+			b.WriteString(pa + pb)
 		}
 		b.WriteString(c)
 		for k := range perms[s.idx] {
@@ -613,7 +727,7 @@ func (s *oset) dispCase(order []int, args []ty) string {
 	for i, ci := range order {
 		cs[i] = s.cands[ci]
 	}
-	return fmt.Sprintf("c10disp\t%s\t%s\tstyle=%s", candsCode(cs), tysCode(args), styleNames[s.style])
+	return fmt.Sprintf("c10disp\t%s\t%s\tstyle=%s\tlayout=%d\tname=%s\trecv=%s", candsCode(cs), tysCode(args), styleNames[s.style], s.layout, s.nameFmt, s.recvFmt)
 }
 
 // what the generated Go contains for one declaration
@@ -764,6 +878,11 @@ func runSets(sets []*oset, o *vh.Out, workdir string) {
 		ps := perms[s.idx]
 		o.Count("style_" + styleNames[s.style])
 		o.Count(fmt.Sprintf("ncands_%d", len(s.cands)))
+		o.Count(fmt.Sprintf("layout_%d", s.layout))
+		if s.style == styleMethod || s.style == styleOp {
+			ru, nu := strings.Contains(s.recvName(0), "_"), strings.Contains(s.declName(0), "_")
+			o.Count(fmt.Sprintf("recv_underscore_%v_name_underscore_%v", ru, nu))
+		}
 		if s.dist {
 			o.Count("sets_distinguishable")
 		} else {
@@ -1381,6 +1500,15 @@ func parseDispCase(f []string) (*oset, []ty, bool) {
 				s.style = i
 			}
 		}
+		if strings.HasPrefix(st, "layout=") {
+			s.layout, _ = strconv.Atoi(st[7:])
+		}
+		if strings.HasPrefix(st, "name=") {
+			s.nameFmt = st[5:]
+		}
+		if strings.HasPrefix(st, "recv=") {
+			s.recvFmt = st[5:]
+		}
 	}
 	if s.style == styleOp {
 		s.op = "+"
@@ -1502,6 +1630,7 @@ func main() {
 		sets = append(sets, &s)
 	}
 	phase("generated")
+	sets = append(sets, coverageSets(r.Fork(3000), nsets, f.Tier)...)
 	runSets(sets, o, workdir)
 	phase("sets compiled and run")
 	for i := 0; i < nbadRounds; i++ {
